@@ -409,8 +409,11 @@ func (it *Interp) global(g *ssa.Global) *Obj {
 	if g.Pkg != nil && !strings.HasPrefix(g.Pkg.Pkg.Path(), "github.com/hashicorp/go-plugin") {
 		if types.Identical(et, types.Universe.Lookup("error").Type()) {
 			o.v = it.mkError(conc(g.String())) // opaque sentinel with stable identity
+		} else if dt := discardType(g); dt != nil {
+			// io.Discard: the real (unexported) io.discard value, so that its Write can be executed
+			o.v = IfaceV{t: dt, v: it.zero(dt)}
 		} else if _, isIface := et.Underlying().(*types.Interface); isIface {
-			// e.g. io.Discard: an opaque non-nil singleton with stable identity
+			// an opaque non-nil singleton with stable identity
 			nt := types.NewNamed(types.NewTypeName(token.NoPos, g.Pkg.Pkg, "opaque_"+g.Name(), nil), types.NewStruct(nil, nil), nil)
 			o.v = IfaceV{t: types.NewPointer(nt), v: Ptr{o: it.newObj(nt, &StructV{})}}
 		} else if pt, isPtr := et.Underlying().(*types.Pointer); isPtr && g.Pkg.Pkg.Path() == "os" && (g.Name() == "Stdin" || g.Name() == "Stdout" || g.Name() == "Stderr") {
@@ -418,6 +421,29 @@ func (it *Interp) global(g *ssa.Global) *Obj {
 		}
 	}
 	return o
+}
+
+// discardType returns the type of the value io.Discard holds (io.discard), or nil if g is not io.Discard
+func discardType(g *ssa.Global) types.Type {
+	if g.Pkg == nil || g.Name() != "Discard" || (g.Pkg.Pkg.Path() != "io" && g.Pkg.Pkg.Path() != "io/ioutil") {
+		return nil
+	}
+	iop := g.Pkg
+	if iop.Pkg.Path() != "io" { // ioutil.Discard is initialised to io.Discard
+		iop = nil
+		for _, p := range g.Pkg.Prog.AllPackages() {
+			if p.Pkg.Path() == "io" {
+				iop = p
+			}
+		}
+		if iop == nil {
+			return nil
+		}
+	}
+	if m, ok := iop.Members["discard"].(*ssa.Type); ok {
+		return m.Type()
+	}
+	return nil
 }
 
 func (it *Interp) constVal(c *ssa.Const) Value {
@@ -1319,10 +1345,59 @@ func (it *Interp) lenLE(i int64, ln Value) Value {
 	panic("lenLE")
 }
 
+// concIndex: a symbolic index into something of small concrete extent is case-split over its feasible values
+func (it *Interp) concIndex(idx Value, extent int) int64 {
+	if i, ok := idx.(int64); ok {
+		return i
+	}
+	sym, ok := idx.(*Sym)
+	if !ok || extent <= 0 || extent > 64 {
+		it.unsup("symbolic index")
+	}
+	// values 0..extent-1, and "out of range" as the last alternative
+	k := it.ex.decide("index", func() []int {
+		var a []int
+		for v := 0; v <= extent; v++ {
+			var t string
+			if v < extent {
+				t = "(= " + sym.T + " " + bvLit(int64(v), 64) + ")"
+			} else {
+				t = "(or (bvslt " + sym.T + " " + bvLit(0, 64) + ") (bvsge " + sym.T + " " + bvLit(int64(extent), 64) + "))"
+			}
+			switch it.sol.check(t) {
+			case "sat":
+				a = append(a, v)
+			case "unsat":
+			default:
+				it.inconc = append(it.inconc, "unknown at index")
+				a = append(a, v)
+			}
+		}
+		return a
+	})
+	if k == extent {
+		it.assume("(or (bvslt " + sym.T + " " + bvLit(0, 64) + ") (bvsge " + sym.T + " " + bvLit(int64(extent), 64) + "))")
+		panic(&goPanic{msg: "index out of range"})
+	}
+	it.assume("(= " + sym.T + " " + bvLit(int64(k), 64) + ")")
+	return int64(k)
+}
+
 func (it *Interp) indexAddr(x, idx Value) Value {
 	i, ok := idx.(int64)
 	if !ok {
-		it.unsup("symbolic index")
+		switch c := x.(type) {
+		case SliceV:
+			if c.arr != nil {
+				if av, isArr := c.arr.v.(*ArrayV); isArr {
+					i = it.concIndex(idx, len(av.E)-c.off)
+					ok = true
+				}
+			}
+		}
+		if !ok {
+			it.unsup("symbolic index")
+		}
 	}
 	switch c := x.(type) {
 	case SliceV:
